@@ -87,6 +87,27 @@ type ZPtrShallow struct {
 	*ZXP
 }
 
+// a struct that embeds the one above: the promoted names mean the same one level further out
+type ZWrapPS struct{ ZPtrShallow }
+
+// two struct types that are both called "ZRec" (declared inside two functions): same name, another layout
+func zRecA() interface{} {
+	type ZRec struct {
+		ID    int
+		token string
+		Label string
+	}
+	return ZRec{ID: 101, token: "s3cr3t-a", Label: "rec-a"}
+}
+func zRecB() interface{} {
+	type ZRec struct {
+		token string
+		Label string
+		ID    int
+	}
+	return ZRec{token: "s3cr3t-b", Label: "rec-b", ID: 202}
+}
+
 // the same with the embedded pointer one level down (depth 2) and the by-value field at depth 3
 type ZXMeta struct{ *ZXP }
 type ZXC struct{ ZXB }
@@ -125,6 +146,10 @@ type ZDocUP struct {
 	Title string
 }
 
+// ZAny is an empty interface type with a name of its own: what sits in a slot of this type is reached (and judged
+// nil or not) like what sits in an interface{}
+type ZAny interface{}
+
 type ZTally int
 
 func (t ZTally) Twice() int    { return int(t) * 2 }
@@ -157,7 +182,14 @@ type ZOuter struct {
 	MA     map[string]interface{}
 	MP     map[string]*ZInner
 	MK     map[interface{}]string
-	Tally  ZTally // defined non-struct types with value and pointer methods
+	Tally  ZTally  // defined non-struct types with value and pointer methods
+	PTally *ZTally // nil: a value-receiver method cannot be called through it
+	QTally *ZTally
+	AnyNil ZAny // a typed nil pointer behind a named empty interface
+	AnyMap ZAny // a nil map
+	AnyVal ZAny
+	AnyL   []ZAny
+	AnyM   map[string]ZAny
 	Stack  ZStack
 	M8     map[uint8]string  // keys that a number may not fit
 	PM     *map[string]int   // a map behind a pointer
@@ -172,6 +204,9 @@ type ZOuter struct {
 	Win    []string // a window on a longer backing array: cap > len
 	PS     ZPtrShallow
 	PN     ZPtrNested
+	WPS    ZWrapPS
+	RecA   interface{}
+	RecB   interface{}
 	Shape  ZShape
 	PShape ZShape
 	Shapes []ZShape
@@ -211,6 +246,10 @@ func zooRoot(variant int) interface{} {
 		MA:    map[string]interface{}{"s": "str", "n": nil, "in": &ZInner{Val: 1, Name: "ma-in"}, "m": map[string]int{"deep": 99}},
 		MP:    map[string]*ZInner{"p": {Val: 2, Name: "mp-p"}, "nilp": nil},
 		Tally: 5, Stack: ZStack{"bottom", "top"},
+		QTally: func() *ZTally { t := ZTally(9); return &t }(),
+		AnyNil: (*ZInner)(nil), AnyMap: map[string]int(nil), AnyVal: ZInner{Val: 31, Name: "any-val"},
+		AnyL:  []ZAny{"any-elem", (*ZInner)(nil), 5, []string(nil)},
+		AnyM:  map[string]ZAny{"p": (*ZInner)(nil), "v": "any-entry", "m": map[string]int(nil)},
 		M8:    map[uint8]string{44: "under-44", 0: "under-0"},
 		PM:    &map[string]int{"pk": 5},
 		MK:    map[interface{}]string{"ik": "interface-key", ZKey("ik"): "entry-under-a-key-of-a-defined-string-type", 7: "entry-under-an-int-key", ZKey("only-named"): "entry-whose-key-exists-as-ZKey-only", "only-plain": "entry-whose-key-exists-as-string-only"},
@@ -239,6 +278,9 @@ func zooRoot(variant int) interface{} {
 		DocU:   ZDocU{zhidden: zhidden{HID: 71, HName: "hidden-val"}, Title: "docu"},
 		DocUP:  ZDocUP{zhidden: &zhidden{HID: 72, HName: "hidden-ptr"}, Title: "docup"},
 		PS:     ZPtrShallow{ZXB: ZXB{ZXA{X: 1, OnlyA: "only-a", Opt: "opt-a"}}, ZXP: &ZXP{X: 2, OnlyP: "only-p", Opt: (*ZInner)(nil)}},
+		WPS:    ZWrapPS{ZPtrShallow{ZXB: ZXB{ZXA{X: 11, OnlyA: "only-a-wrapped", Opt: "opt-a-wrapped"}}, ZXP: &ZXP{X: 12, OnlyP: "only-p-wrapped"}}},
+		RecA:   zRecA(),
+		RecB:   zRecB(),
 		PN:     ZPtrNested{ZXMeta: ZXMeta{&ZXP{X: 4, OnlyP: "only-p-nested", Opt: map[string]int(nil)}}, ZXC: ZXC{ZXB{ZXA{X: 3, OnlyA: "only-a-nested", Opt: "opt-a-nested"}}}},
 	}
 	switch variant {
@@ -288,7 +330,8 @@ type zStep struct {
 var zIfaceKeys = map[string]interface{}{"keyNamed": ZKey("ik"), "keyPlain": "ik", "keyInt": 7, "keyAbsent": ZKey("nope"), "keySlice": []int{1}, "keyDeepUnhashable": zDeepKey{V: []int{1}},
 	"keyOnlyNamed": ZKey("only-named"), "keyPlainOfNamed": "only-named", "keyNamedOfPlain": ZKey("only-plain"),
 	// keys of an array type with interface elements: comparable as a type, hashable unless an element holds a slice
-	"keyArr": [2]interface{}{"a", 1}, "keyArrAbsent": [2]interface{}{"b", 2}, "keyArrUnhashable": [2]interface{}{[]int{1}, 2}}
+	"keyCodePoint": int32('k'),
+	"keyArr":       [2]interface{}{"a", 1}, "keyArrAbsent": [2]interface{}{"b", 2}, "keyArrUnhashable": [2]interface{}{[]int{1}, 2}}
 
 // zHashable: whether v can be used as a map key (the type may say yes and the value no)
 func zHashable(v interface{}) (ok bool) {
@@ -491,7 +534,7 @@ func zOptions(v reflect.Value) (valid, invalid []zStep) {
 		return nil, []zStep{{Kind: "field", Name: "Anything"}, {Kind: "index", I: 0}}
 	}
 	if isNil && d.Kind() != reflect.Map {
-		return nil, []zStep{{Kind: "field", Name: "Name"}, {Kind: "index", I: 0}, {Kind: "field", Name: "Val"}, {Kind: "method", Name: "Hello"}}
+		return nil, []zStep{{Kind: "field", Name: "Name"}, {Kind: "index", I: 0}, {Kind: "field", Name: "Val"}, {Kind: "method", Name: "Hello"}, {Kind: "method", Name: "Twice"}}
 	}
 	// methods (value receivers always; pointer receivers when the value is reached through a pointer)
 	addMethods := func(t reflect.Type) {
@@ -567,6 +610,8 @@ func zOptions(v reflect.Value) (valid, invalid []zStep) {
 				valid = append(valid, st)
 			}
 			valid = append(valid, zStep{Kind: "field", Name: "absentKey", Spell: "bracket"}, zStep{Kind: "field", Name: "absentKey", Spell: "dot"})
+			// an integer is not a key of a string-keyed map (and not the one-character string with that code point either)
+			invalid = append(invalid, zStep{Kind: "ikey", Var: "keyInt"}, zStep{Kind: "ikey", Var: "keyCodePoint"})
 			if !hasEmpty {
 				valid = append(valid, zStep{Kind: "field", Name: "", Spell: "bracket"}) // absent empty key
 			}
